@@ -134,6 +134,47 @@ def scramble(rnd, c):
     return c2
 
 
+def parity_circuit(rnd, nin=None, style='v'):
+    """Parity logic over many inputs: every input transition reaches the outputs, so waveforms get long and overflow
+    small capacities.  Several taps of the chain are ports."""
+    Circuit, Node, Line = kyupy_mods()
+    c = Circuit('parity')
+    nin = nin or rnd.randint(3, 6)
+    sig = []
+    for i in range(nin):
+        if style == 'v':
+            p = Node(c, 'i%d' % i, 'input'); c.io_nodes.append(p); f = Node(c, 'i%d' % i); Line(c, p, f)
+        else:
+            f = Node(c, 'i%d' % i); c.io_nodes.append(f)
+        sig.append(f)
+    acc = sig[0]
+    taps = []
+    g = 0
+    rest = sig[1:]
+    while rest:
+        k = rnd.choice([1, 1, 2]) if len(rest) >= 2 else 1
+        ops, rest = rest[:k], rest[k:]
+        kind = rnd.choice(['XOR', 'XNOR']) + str(k + 1)
+        n = Node(c, 'g%d' % g, kind)
+        Line(c, acc, n)
+        for o in ops:
+            Line(c, o, n)
+        acc = Node(c, 'g%d' % g); Line(c, n, acc)
+        taps.append(acc)
+        g += 1
+    if rnd.random() < 0.5:
+        ff = Node(c, 'ff0', 'DFF'); Line(c, acc, (ff, 0))
+        q = Node(c, 'ff0'); Line(c, ff, q)
+        n = Node(c, 'g%d' % g, 'XOR2'); Line(c, q, n); Line(c, taps[0], n)
+        acc = Node(c, 'g%d' % g); Line(c, n, acc); taps.append(acc)
+    for k, t in enumerate(rnd.sample(taps, min(len(taps), rnd.randint(1, 3))) + [acc]):
+        if style == 'v':
+            o = Node(c, 'o%d' % k, 'output'); c.io_nodes.append(o); Line(c, t, o)
+        elif t not in c.io_nodes:
+            c.io_nodes.append(t)
+    return c
+
+
 def one_of_each(style='v'):
     """A circuit instantiating every one of the 33 primitives once, each at its full arity."""
     Circuit, Node, Line = kyupy_mods()
